@@ -7,7 +7,10 @@ use vh_common::*;
 
 fn a1(r: i32, c: i32) -> String { format!("{}{}", (b'A' + (c - 1) as u8) as char, r) }
 
-struct Sc { area: (i32, i32, i32, i32), tgt_sheet: u32, dst: (i32, i32), cut: bool, inside: Vec<((i32, i32), String)>, outside: Vec<((u32, i32, i32), String)> }
+struct Sc { area: (i32, i32, i32, i32), tgt_sheet: u32, dst: (i32, i32), cut: bool, inside: Vec<((i32, i32), String)>, outside: Vec<((u32, i32, i32), String)>,
+    /// formulas `=Sheet1!<cut cell>+1` placed systematically: on the OTHER sheet at every coordinate of the cut rectangle and just outside each
+    /// edge, and on the cut sheet just outside each edge: (sheet, row, col, referenced cut cell)
+    probes: Vec<(u32, i32, i32, (i32, i32))> }
 
 fn build(sc: &Sc) -> Result<UserModel<'static>, String> {
     let mut u = UserModel::new_empty("m", "en", "UTC", "en")?;
@@ -15,6 +18,7 @@ fn build(sc: &Sc) -> Result<UserModel<'static>, String> {
     for s in 0..2u32 { for r in 1..=7 { for c in 1..=6 { u.set_user_input(s, r, c, &format!("{}", (s as i32 + 1) * 1000 + r * 10 + c))?; } } }
     for ((r, c), f) in &sc.inside { u.set_user_input(0, *r, *c, f)?; }
     for ((s, r, c), f) in &sc.outside { u.set_user_input(*s, *r, *c, f)?; }
+    for (s, r, c, t) in &sc.probes { u.set_user_input(*s, *r, *c, &format!("=Sheet1!{}+1", a1(t.0, t.1)))?; }
     // a style on the first cell of the area
     u.update_range_style(&Area { sheet: 0, row: sc.area.0, column: sc.area.1, width: 1, height: 1 }, "font.b", "true")?;
     Ok(u)
@@ -37,7 +41,7 @@ fn val(u: &UserModel, s: u32, r: i32, c: i32) -> String { format!("{:?}", u.get_
 /// formulas whose operand structure the moved printer cannot spell
 fn paren_sensitive(f: &str) -> bool { f.contains('(') && !f.starts_with("=SUM(") }
 
-pub fn run(rng: &mut Rng, or: &mut Oracle, thorough: bool) -> serde_json::Value {
+pub fn run(rng: &mut Rng, or: &mut Oracle, cs: &mut Cases, thorough: bool) -> serde_json::Value {
     let n = if thorough { 1500 } else { 150 };
     let mut stats = std::collections::BTreeMap::<String, u64>::new();
     for i in 0..n {
@@ -59,7 +63,21 @@ pub fn run(rng: &mut Rng, or: &mut Oracle, thorough: bool) -> serde_json::Value 
         for k in 0..3 { outside.push(((0u32, 1 + k, 8), rng.pick(&pool_out).clone())); }
         outside.push(((1u32, 1, 8), format!("=Sheet1!{first}*2")));
         outside.push(((1u32, 2, 8), format!("=SUM(Sheet1!{first}:{in_cell})")));
-        let sc = Sc { area: (r0, c0, h, w), tgt_sheet: if other { 1 } else { 0 }, dst, cut, inside, outside };
+        // probes: the other sheet at every coordinate of the cut rectangle and just outside each edge; the cut sheet just outside each edge
+        let mut probes = vec![];
+        let last = (r0 + h - 1, c0 + w - 1);
+        let mut k = 0;
+        for r in r0 - 1..=r0 + h { for c in c0 - 1..=c0 + w {
+            if r < 1 || c < 1 { continue; }
+            let inside_rect = r >= r0 && r < r0 + h && c >= c0 && c < c0 + w;
+            let corner = (r == r0 - 1 || r == r0 + h) && (c == c0 - 1 || c == c0 + w);
+            if corner { continue; }
+            k += 1;
+            let t = if k % 2 == 0 { (r0, c0) } else { last };
+            probes.push((1u32, r, c, t));
+            if !inside_rect { probes.push((0u32, r, c, t)); }
+        } }
+        let sc = Sc { area: (r0, c0, h, w), tgt_sheet: if other { 1 } else { 0 }, dst, cut, inside, outside, probes };
         let input = json!({"area": [r0, c0, h, w], "to_sheet": sc.tgt_sheet, "to": [dst.0, dst.1], "cut": cut,
             "inside": sc.inside.iter().map(|(p, f)| format!("{}: {}", a1(p.0, p.1), f)).collect::<Vec<_>>(),
             "outside": sc.outside.iter().map(|(p, f)| format!("S{}!{}: {}", p.0 + 1, a1(p.1, p.2), f)).collect::<Vec<_>>()});
@@ -99,6 +117,24 @@ pub fn run(rng: &mut Rng, or: &mut Oracle, thorough: bool) -> serde_json::Value 
             let got = val(&u, 0, r, c);
             if got != "Ok(String(\"\"))" && got != "Ok(None)" && !got.contains("\"\"") { or.fail("cut_source_not_cleared", json!({"scenario": input, "cell": a1(r, c), "after": got}), format!("{} still {}", a1(r, c), got)); }
         } } } }
+        // (2b) the probes: a reference to a cut cell from anywhere (any sheet, any coordinates — also the coordinates of the cut
+        // rectangle on another sheet) points to the moved cell after a cut; after a copy nothing changes. Compared as text.
+        for (s, r, c, t) in &sc.probes {
+            if in_dst(*s, *r, *c) { continue; }
+            let before_text = format!("=Sheet1!{}+1", a1(t.0, t.1));
+            let got = u.get_model().get_cell_formula(*s, *r, *c).ok().flatten().unwrap_or_default();
+            if cut && !other {
+                // which formula cells the external pass rewrites: model external_rewritten (skip rule incl. the sheet conjunct)
+                cs.case(&format!("K 0 {} {} {} {} {} {} {}", r0, c0, w, h, s, r, c), b(got != before_text));
+            }
+            if other && cut { continue; }   // F67: cut to another sheet (known classes above)
+            or.checked += 1;
+            let expected = if cut { format!("=Sheet1!{}+1", a1(t.0 + dr, t.1 + dc)) } else { before_text.clone() };
+            if got != expected {
+                or.fail("reference_to_cut_cell_not_moved", json!({"scenario": input, "probe": format!("S{}!{}", s + 1, a1(*r, *c)), "before": before_text, "after": got, "expected": expected}),
+                    format!("probe S{}!{} {} became {} (expected {})", s + 1, a1(*r, *c), before_text, got, expected));
+            }
+        }
         // (3) every formula elsewhere keeps its value (cut: references follow; copy: nothing else changes) unless it reads an overwritten cell
         for ((s, r, c), f) in &sc.outside {
             if in_src(*s, *r, *c) || in_dst(*s, *r, *c) { continue; }
@@ -126,3 +162,4 @@ pub fn run(rng: &mut Rng, or: &mut Oracle, thorough: bool) -> serde_json::Value 
     }
     json!(stats)
 }
+
